@@ -1507,12 +1507,34 @@ func streamHistory(e *Emitter, rng *rand.Rand, tier string) {
 	for i := 0; i < n; i++ {
 		c := cfgs[rng.IntN(len(cfgs))]
 		var sc *Scenario
-		for {
+		if rng.IntN(12) == 0 {
+			// directed: a client without envelopes and without Content-Length whose body is too long or cut,
+			// in front of a target with envelopes (the body is buffered to be measured, the buffer goes back
+			// to the pool on the error path)
+			c = cfgs[0]
+			for try := 0; try < 2000; try++ {
+				scratch := &Emitter{kinds: map[string]int{}, classes: map[string]int{}, nontriv: map[string]struct{}{}}
+				cand := genScenarioWith(scratch, rng, func(s *Scenario) {
+					s.Cfg.Protocols, s.Cfg.Codecs, s.Cfg.Compress, s.Cfg.MaxMsg = c.protocols, c.codecs, c.compress, c.maxMsg
+					s.Cfg.MaxGetURL, s.Cfg.Unknown = 200, false
+				})
+				size := 0
+				for _, ch := range cand.Req.Body {
+					size += len(unhx(ch))
+				}
+				if cand.ClientProto == "connect-unary" && cand.Req.Method == hs("POST") && cand.Req.ContentLength == -1 &&
+					(size > int(c.maxMsg) || cand.Req.BodyEnd == "unexpected") {
+					sc = cand
+					e.Class("directed:unenveloped-undeclared-body-too-long-or-cut")
+					break
+				}
+			}
+		}
+		if sc == nil {
 			sc = genScenarioWith(e, rng, func(s *Scenario) {
 				s.Cfg.Protocols, s.Cfg.Codecs, s.Cfg.Compress, s.Cfg.MaxMsg = c.protocols, c.codecs, c.compress, c.maxMsg
 				s.Cfg.MaxGetURL, s.Cfg.Unknown = 200, false
 			})
-			break
 		}
 		raw, _ := json.Marshal(sc)
 		// every request is both a probe (used versus fresh transcoder) and history for the next ones
